@@ -532,15 +532,14 @@ func init() {
 				// the callback acts only when it is the last pending one and the timer is still started
 				stf := c.field(tn, "state")
 				forEachInstr(to, func(in ssa.Instruction) {
-					d, ok := in.(*ssa.Defer)
-					if !ok || !d.Call.IsInvoke() {
+					d, ok := in.(ssa.CallInstruction)
+					if !ok || !d.Common().IsInvoke() {
 						return
 					}
-					c.Dom("callback-acts-if-last:"+tn+"."+d.Call.Method.Name(), d, CmpCond(token.EQL, IsLoadOf(pend), IsConstInt(0)), "pending == 0")
-					c.Dom("callback-acts-if-started:"+tn+"."+d.Call.Method.Name(), d, func(v ssa.Value, t bool) bool {
-						b, ok := v.(*ssa.BinOp)
-						return ok && b.Op == token.EQL && t && IsLoadOf(stf)(b.X)
-					}, "state == started")
+					c.Dom("callback-acts-if-last:"+tn+"."+d.Common().Method.Name(), d, CmpCond(token.EQL, IsLoadOf(pend), IsConstInt(0)), "pending == 0")
+					var started int64
+					fmt.Sscan(c.P.Const(tn+"Started").Val().String(), &started)
+					c.Dom("callback-acts-if-started:"+tn+"."+d.Common().Method.Name(), d, CmpCond(token.EQL, IsLoadOf(stf), IsConstInt(started)), "state == started")
 				})
 			}
 		}})
